@@ -35,9 +35,10 @@ class Value:
 class Code:
     co_flags = 0
 
-    def __init__(self, idx, mode, coroutine=False):
+    def __init__(self, idx, mode, coroutine=False, filename=None):
         self.idx = idx
         self.mode = mode
+        self.filename = filename
         if coroutine:
             import inspect
             self.co_flags = inspect.CO_COROUTINE
@@ -106,7 +107,7 @@ def stub_compile(source, mode=None, filename=None, flags=0, dont_inherit=False, 
         r = ENV.compile_hook(idx, mode, filename)
         if r is not None:
             return r
-    return Code(idx, mode)
+    return Code(idx, mode, filename=filename)
 
 
 def stub_exec(code, glb=None, *a):
@@ -120,11 +121,47 @@ def stub_exec(code, glb=None, *a):
     return None
 
 
+class HarnessExc(Exception):
+    """exception raised by a stubbed part; `excline` is what
+    traceback.format_exception_only(...)[-1] renders for it (symbolic)"""
+
+    def __init__(self, idx, excline=None):
+        Exception.__init__(self, 'harness exception of part %d' % idx)
+        self.idx = idx
+        self.excline = excline
+
+
+def raise_in_doctest_frame(code, exc, lineno=1, via_helper_line=None):
+    """raise `exc` from a frame whose file name is the doctest's part file name
+    (as real doctest code would), at line `lineno` of the part"""
+    src = '\n' * (lineno - 1) + 'raise __exc__'
+    real_exec = exec
+    real_exec(compile(src, code.filename or '<x>', 'exec'), {'__exc__': exc})
+
+
+class TracebackShim:
+    """`traceback` module as seen by doctest_example: format_exception_only of a
+    harness exception is its symbolic `Type: message` line"""
+
+    def __init__(self):
+        import traceback as tb
+        self._tb = tb
+
+    def format_exception_only(self, etype, value=None, *a, **k):
+        if isinstance(value, HarnessExc) and value.excline is not None:
+            return [value.excline]
+        return self._tb.format_exception_only(etype, value, *a, **k)
+
+    def __getattr__(self, k):
+        return getattr(self._tb, k)
+
+
 def install(uf_match=None):
     """instrument + install the environment stubs.  Returns the modules."""
     ins = instrumented()
     from xdoctest import doctest_example, doctest_part, checker, utils, directive, constants, exceptions
     utils.CaptureStdout = SymCapture
+    doctest_example.traceback = TracebackShim()
     ins.RT.STUBS.update(compile=stub_compile, exec=stub_exec, eval=stub_exec)
     return dict(doctest_example=doctest_example, doctest_part=doctest_part, checker=checker,
                 utils=utils, directive=directive, constants=constants, exceptions=exceptions, ins=ins)
